@@ -173,6 +173,15 @@ fn frame(word: &[usize], step: usize, family: usize) -> Vec<Det> {
         let b = Det::ltwh(0.5 * step as f32 + gap, 1.0, 10.0, 20.0).conf(if step % 3 == 2 { 0.2 } else { 0.7 });
         return if step % 2 == 0 { vec![a, b] } else { vec![b, a] };
     }
+    if family == 5 {
+        // a single object that hops by 0.75 / 1.5 / 3 px per step: decided by the chi-square gate of a filter
+        // with SMALL Kalman weights (the gate is then narrower than a few pixels), far from a static one
+        let mut x = 0.0f32;
+        for d in &word[..step] {
+            x += [0.75f32, 1.5, 3.0][*d];
+        }
+        return vec![Det::ltwh(x, 0.0, 10.0, 20.0), Det::ltwh(-500.0, 0.0, 10.0, 20.0).conf(0.7)];
+    }
     if family == 3 {
         // a single object that jumps by 16 / 24 / 30 px per step (bounding-circle reach of two 10x20
         // boxes: 22.4 px), far away from a second, static one
@@ -225,6 +234,14 @@ pub fn run_b(rep: &Report, tier: Tier) {
         c.kalman_w = (0.5, 0.1);
         cfgs.push(c);
     }
+    // small Kalman weights: the chi-square gate is a few pixels wide (decides the small-hop family)
+    {
+        let mut c = TrkCfg::new(Kind::Sort);
+        c.pos = Pos::Maha;
+        c.max_idle = 1;
+        c.kalman_w = (1.0 / 80.0, 1.0 / 640.0);
+        cfgs.push(c);
+    }
     // a high minimal confidence (above the IoU threshold): low-confidence detections are lifted over the gate
     for kind in [Kind::Sort, Kind::VisualSort] {
         let mut c = TrkCfg::new(kind);
@@ -238,7 +255,7 @@ pub fn run_b(rep: &Report, tier: Tier) {
     let greedy_differs = AtomicU64::new(0);
     let continued = AtomicU64::new(0);
     for cfg in cfgs {
-        for family in 0..5usize {
+        for family in 0..6usize {
             if rep.out_of_time() {
                 rep.cap_hit("wall budget reached in the end-to-end association part");
                 return;
